@@ -297,8 +297,20 @@ class History(object):
         return self._emit({'k': 'cmp', 'a': a, 'b': b, 'eq': eq, 'ne': ne, 'samebytes': same})
 
     def repr(self, tid):
-        repr(self.trees[tid - 1])
-        str(self.trees[tid - 1].changes)
+        t = self.trees[tid - 1]
+        repr(t)
+        str(t.changes)
+        # reading every typed attribute (set or not) of every container is an observation too
+        names0 = ['encoding', 'version', 'meta', 'meta_encoding', 'meta_format', 'preamble', 'preamble_encoding', 'preamble_indent',
+                  'preamble_line_endings', 'preamble_mimetype']
+        names2 = ['encoding', 'meta', 'meta_encoding', 'meta_format', 'diff', 'diff_encoding', 'diff_line_endings', 'diff_type']
+        for c, names in [(t, names0)] + [(ch, names0[:1] + names0[2:]) for ch in t.changes] + \
+                [(f, names2) for ch in t.changes for f in ch.files]:
+            for nm in names:
+                try:
+                    getattr(c, nm)
+                except Exception:       # noqa  (a failing read is not this event's subject)
+                    pass
         return self._emit({'k': 'repr', 'tid': tid})
 
     def trace(self, tid, chk):
